@@ -15,7 +15,14 @@ ObjOk(e, want, got) ==
   /\ got.id = want.id /\ got.name = want.name /\ got.transform = want.transform
   /\ IF want.type = TypeMarker
      THEN got.data.k = "marker" /\ got.data.kind = e.markerkinds[want.data[1]] /\ got.data.w = <<want.data[2], want.data[3]>>
-     ELSE got.data.k = "pop" /\ got.data.kind = e.popkinds[want.data[1]] /\ got.data.w = <<want.data[4]>> /\ got.data.index = want.data[5]
+     ELSE IF want.type = TypePop
+     THEN got.data.k = "pop" /\ got.data.kind = e.popkinds[want.data[1]] /\ got.data.w = <<want.data[4]>> /\ got.data.index = want.data[5]
+     ELSE IF want.type = TypeEnv
+     THEN /\ got.data.k = "env" /\ got.data.shape = e.envshapes[want.data[3]] /\ got.data.flag = want.data[4] /\ got.data.priority = want.data[5]
+          /\ got.data.w = <<want.data[1], want.data[2], want.data[6], want.data[7], want.data[8], want.data[9], want.data[10]>>
+     ELSE /\ got.data.k = "exit" /\ got.data.shape = e.boxshapes[want.data[1]] /\ got.data.priority = want.data[2] /\ got.data.enabled = want.data[3]
+          /\ got.data.kind = e.exitkinds[want.data[4]] /\ got.data.zone = want.data[5] /\ got.data.territory = want.data[6]
+          /\ got.data.w = <<want.data[7], want.data[8], want.data[9], want.data[10]>>
 LayerHeadOk(want, got) ==
   /\ got.id = want.id /\ got.name = want.name /\ got.flags = want.flags /\ got.festival = want.festival
   /\ got.temporary = want.temporary /\ got.housing = want.housing /\ got.mask = want.mask
